@@ -1233,6 +1233,48 @@ theorem C18_legacy_xor_chain_witness :
   decide
 
 
+/-! ## the same statements on the tree as it is: regenerated ties (each stops the build on a tree without the repair) and
+the unconditional corollaries -/
+
+/-- regenerated tie: `is_python_keyword` compares stems (fixes/C18-13) -/
+theorem C18_tie_escapes_stems : escapesStems = true := rfl
+/-- regenerated tie: attribute references and rule labels in bodies are keyword-escaped (fixes/C18-14) -/
+theorem C18_tie_body_escapes_keywords : bodyEscapesKeywords = true := rfl
+/-- regenerated tie: a nested XOR keeps its parentheses (fixes/C18-16) -/
+theorem C18_tie_xor_parenthesised : xorSkipsParentheses = false := rfl
+
+/-- The escaping is injective: two different EXPRESS identifiers never share a Python name. -/
+theorem C18_escaping_is_injective (a b : String) (h : pyName a = pyName b) : a = b :=
+  C18_escaping_injective_when_stems_compared C18_tie_escapes_stems a b h
+
+/-- Every body of the fragment is Python. -/
+theorem C18_body_compiles (e : Body.Expr) : (Body.read e).isSome = true :=
+  (C18_body_compiles_iff e).mpr (Or.inl C18_tie_body_escapes_keywords)
+
+/-- **The getter of a derived attribute is Python, raises nothing and returns the value EXPRESS gives the expression** on
+every instance whose attributes hold values of their declared types — for every well-typed expression of the fragment
+(`Spec.Body.eval` defined), no exclusions. -/
+theorem C18_derived_getter_value (env : List (String × Body.V)) (e : Body.Expr) (v : Body.V)
+    (hs : Spec.Body.eval env e = some v) :
+    ∃ p, Body.read e = some p ∧ Body.pyEval (Body.instanceOf env) p = some v := by
+  cases hr : Body.read e with
+  | none => have := C18_body_compiles e; rw [hr] at this; cases this
+  | some p =>
+    exact ⟨p, rfl, C18_derived_getter_value_partial env (C18_body_names_distinct_when_stems_compared C18_tie_escapes_stems env)
+      e v p (Or.inl C18_tie_xor_parenthesised) (Or.inl C18_tie_body_escapes_keywords) hs hr⟩
+
+/-- **A WHERE-rule method returns TRUE when the rule holds and raises AssertionError when it is violated** — nothing else —
+for every well-typed rule expression of the fragment. -/
+theorem C18_where_rule_verdict (env : List (String × Body.V)) (e : Body.Expr) (b : Bool)
+    (hs : Spec.Body.rule env e = some b) :
+    ∃ p, Body.read e = some p ∧
+      Body.ruleRun (Body.instanceOf env) p = (if b then .returns (.bool true) else .assertionError) := by
+  cases hr : Body.read e with
+  | none => have := C18_body_compiles e; rw [hr] at this; cases this
+  | some p =>
+    exact ⟨p, rfl, C18_where_rule_verdict_partial env (C18_body_names_distinct_when_stems_compared C18_tie_escapes_stems env)
+      e b p (Or.inl C18_tie_xor_parenthesised) (Or.inl C18_tie_body_escapes_keywords) hs hr⟩
+
 /-! ## REPEAT with an increment control -/
 
 theorem Body.pyRange_inclusive (f : Nat) (a b s : Int) (hs : s ≠ 0) :
@@ -1261,14 +1303,17 @@ theorem Body.pyRange_inclusive (f : Nat) (a b s : Int) (hs : s ≠ 0) :
         simp only [hp, if_false] at ih'
         simp [h, this, ih']
 
+/-- regenerated tie: `LOOPpyout` writes the stop value one step past the bound (fixes/C18-20).  Does not build on a tree
+that writes `range(a,b,s)`. -/
+theorem C18_tie_repeat_bound_inclusive : repeatBoundInclusive = true := rfl
+
 /-- **`REPEAT i := a TO b BY s` runs over exactly the values ISO 10303-11 13.9.1 gives the loop variable**: with the stop
-value `LOOPpyout` writes once it is `(b) + (1 if (s) > 0 else -1)` (regenerated `repeatBoundInclusive`, fixes/C18-20),
-Python's `range(a, stop, s)` yields the same values in the same order — for all bounds and every non-zero increment, to
-any length. -/
-theorem C18_repeat_range_inclusive (h : repeatBoundInclusive = true) (f : Nat) (a b s : Int) (hs : s ≠ 0) :
+value `LOOPpyout` writes (`(b) + (1 if (s) > 0 else -1)`, tie above), Python's `range(a, stop, s)` yields the same values
+in the same order — for all bounds and every non-zero increment, to any length. -/
+theorem C18_repeat_range_inclusive (f : Nat) (a b s : Int) (hs : s ≠ 0) :
     Body.pyRange f a (Body.stopWritten b s) s = Spec.Body.repeatValues f a b s := by
   unfold Body.stopWritten
-  rw [h]
+  rw [C18_tie_repeat_bound_inclusive]
   exact Body.pyRange_inclusive f a b s hs
 
 /-- With the bound itself as the stop value (`range(a,b,s)`, before fixes/C18-20) the last value is lost:
@@ -1277,6 +1322,119 @@ theorem C18_legacy_repeat_range_witness :
     Body.pyRange 10 1 3 1 = [1, 2] ∧ Spec.Body.repeatValues 10 1 3 1 = [1, 2, 3] ∧
     Body.pyRange 10 3 1 (-1) = [3, 2] ∧ Spec.Body.repeatValues 10 3 1 (-1) = [3, 2, 1] := by
   decide
+
+
+/-! ## the constructor's inherited parameters, stated with the supertype relation (independent of the fold that computes them) -/
+
+theorem mem_dedup (a : Attr) : ∀ l : List Attr, a ∈ dedup l ↔ a ∈ l
+  | [] => by simp [dedup]
+  | b :: l => by
+    simp only [dedup, List.mem_cons, List.mem_filter, decide_eq_true_eq, mem_dedup a l]
+    constructor
+    · rintro (h | ⟨h, _⟩)
+      · exact Or.inl h
+      · exact Or.inr h
+    · rintro (h | h)
+      · exact Or.inl h
+      · by_cases hab : a = b
+        · exact Or.inl hab
+        · exact Or.inr ⟨h, hab⟩
+
+theorem nodup_dedup : ∀ l : List Attr, (dedup l).Nodup
+  | [] => by simp [dedup]
+  | b :: l => by
+    simp only [dedup]
+    refine List.nodup_cons.mpr ⟨?_, (nodup_dedup l).filter _⟩
+    simp [List.mem_filter]
+
+theorem superOrder_eq (es : List Entity) (e : Entity) : superOrder es e = e.supers := by simp [superOrder, sortsBases]
+
+theorem own_mem_allAttrs (es : List Entity) (a : Attr) : ∀ (f : Nat) (e : Entity), a ∈ e.attrs → a ∈ allAttrs es f e
+  | 0, _, h => h
+  | _ + 1, _, h => by simp only [allAttrs, List.mem_append]; exact Or.inr h
+
+theorem allAttrs_sound (es : List Entity) (a : Attr) :
+    ∀ (f : Nat) (n : String) (pe : Entity), find es n = some pe → a ∈ allAttrs es f pe →
+      a ∈ pe.attrs ∨ ∃ anc ae, Anc es anc n ∧ find es anc = some ae ∧ a ∈ ae.attrs
+  | 0, _, _, _, h => Or.inl h
+  | f + 1, n, pe, hf, h => by
+    simp only [allAttrs, superOrder_eq, List.mem_append, List.mem_flatMap] at h
+    rcases h with ⟨p, hp, hm⟩ | h
+    · cases hfp : find es p with
+      | none => simp [hfp] at hm
+      | some ppe =>
+        simp only [hfp] at hm
+        rcases allAttrs_sound es a f p ppe hfp hm with h1 | ⟨anc, ae, hanc, hfa, ha⟩
+        · exact Or.inr ⟨p, ppe, Anc.direct hf hp, hfp, h1⟩
+        · exact Or.inr ⟨anc, ae, Anc.step hf hp hanc, hfa, ha⟩
+    · exact Or.inl h
+
+theorem allAttrs_complete (es : List Entity) (a : Attr) {anc n : String} {l : List String} (hp : EntityOrder.Path es anc n l) :
+    ∀ (f : Nat) (pe ae : Entity), l.length ≤ f → find es n = some pe → find es anc = some ae → a ∈ ae.attrs →
+      a ∈ allAttrs es f pe := by
+  induction hp with
+  | @direct n' e' hf hm =>
+    intro f pe ae hle hfn hfa ha
+    rw [hf] at hfn; injection hfn with hfn; subst hfn
+    cases f with
+    | zero => simp at hle
+    | succ g =>
+      simp only [allAttrs, superOrder_eq, List.mem_append, List.mem_flatMap]
+      exact Or.inl ⟨anc, hm, by simp only [hfa]; exact own_mem_allAttrs es a g ae ha⟩
+  | @step p' n' e' l' hf hm hpath ih =>
+    intro f pe ae hle hfn hfa ha
+    rw [hf] at hfn; injection hfn with hfn; subst hfn
+    cases f with
+    | zero => simp at hle
+    | succ g =>
+      simp only [List.length_cons] at hle
+      obtain ⟨ppe, hfp⟩ : ∃ ppe, find es p' = some ppe := by
+        cases hpath with
+        | direct hf' _ => exact ⟨_, hf'⟩
+        | step hf' _ _ => exact ⟨_, hf'⟩
+      simp only [allAttrs, superOrder_eq, List.mem_append, List.mem_flatMap]
+      exact Or.inl ⟨p', hm, by simp only [hfp]; exact ih g ppe ae (by omega) hfp hfa ha⟩
+
+/-- **The inherited constructor parameters are exactly the explicit attributes of the entity's direct and indirect
+supertypes, each once** — stated with the supertype relation `Anc` itself, not with the fold that computes the list: for
+every acyclic schema and entity, an attribute is among them iff it is explicit (or OPTIONAL) and declared by a supertype
+`p` of the entity or by an ancestor of such a `p`; and the list has no duplicates.  (Their *order* — Part 21 order — is
+`C18_ctor_p21_order`, a consistency lemma between two folds, and the oracle's comparison with the emitted constructor.) -/
+theorem C18_ctor_inherits_exactly_the_supertypes_explicit_attributes (es : List Entity) (hac : EntityOrder.Acyclic es)
+    (e : Entity) :
+    (∀ a, a ∈ inheritedAttrs es e ↔
+      (isParam a = true ∧ ∃ p ∈ e.supers, ∃ anc ae, (anc = p ∨ Anc es anc p) ∧ find es anc = some ae ∧ a ∈ ae.attrs)) ∧
+    (inheritedAttrs es e).Nodup := by
+  have hio : inheritedOnce = true := rfl
+  constructor
+  · intro a
+    simp only [inheritedAttrs, hio, if_true, List.mem_filter, mem_dedup, inheritedAll, superOrder_eq, List.mem_flatMap]
+    constructor
+    · rintro ⟨⟨p, hp, hm⟩, hpar⟩
+      refine ⟨hpar, p, hp, ?_⟩
+      cases hfp : find es p with
+      | none => simp [hfp] at hm
+      | some pe =>
+        simp only [hfp] at hm
+        rcases allAttrs_sound es a es.length p pe hfp hm with h1 | ⟨anc, ae, hanc, hfa, ha⟩
+        · exact ⟨p, pe, Or.inl rfl, hfp, h1⟩
+        · exact ⟨anc, ae, Or.inr hanc, hfa, ha⟩
+    · rintro ⟨hpar, p, hp, anc, ae, hrel, hfa, ha⟩
+      refine ⟨⟨p, hp, ?_⟩, hpar⟩
+      rcases hrel with rfl | hanc
+      · simp only [hfa]; exact own_mem_allAttrs es a _ ae ha
+      · obtain ⟨l, hl⟩ := EntityOrder.path_of_anc hanc
+        have hlen : l.length ≤ es.length := by
+          have := EntityOrder.nodup_subset_length_le l (es.map (·.name)) (EntityOrder.path_nodup hac hl) (EntityOrder.path_nodes hl).2
+          simpa using this
+        obtain ⟨pe, hfp⟩ : ∃ pe, find es p = some pe := by
+          cases hl with
+          | direct hf' _ => exact ⟨_, hf'⟩
+          | step hf' _ _ => exact ⟨_, hf'⟩
+        simp only [hfp]
+        exact allAttrs_complete es a hl es.length pe ae hlen hfp hfa ha
+  · simp only [inheritedAttrs, hio, if_true]
+    exact (nodup_dedup _).filter _
 
 
 end StepModel.GenPy
